@@ -604,7 +604,7 @@ func c13R3(p *Prog, r *Report) {
 			continue
 		}
 		as, ok := fc.G.V[d].Node.(*ast.AssignStmt)
-		if ok && as.Tok == token.ADD_ASSIGN && strings.Contains(exprStr(as.Rhs[0]), "len(req.Payload)") && fc.G.Dominates([]int{copyc.V}, d) && fc.G.Dominates([]int{d}, coll.V) && !fc.G.ReachAfter(d, nil, nil)[d] {
+		if ok && as.Tok == token.ADD_ASSIGN && lenOfRequestPayload(fc, as.Rhs[0]) && fc.G.Dominates([]int{copyc.V}, d) && fc.G.Dominates([]int{d}, coll.V) && !fc.G.ReachAfter(d, nil, nil)[d] {
 			adds++
 			continue
 		}
@@ -827,4 +827,25 @@ func sliceFlowsFrom(fc *FuncCtx, e ast.Expr, buf types.Object, depth int) bool {
 		}
 	}
 	return false
+}
+
+// lenOfRequestPayload: e contains len(<a netio.ConnRequest value>.Payload) — the initial payload
+// of the request, whatever the request variable is called.
+func lenOfRequestPayload(fc *FuncCtx, e ast.Expr) bool {
+	info := fc.Info()
+	found := false
+	ast.Inspect(e, func(n ast.Node) bool {
+		c, ok := n.(*ast.CallExpr)
+		if !ok || len(c.Args) != 1 {
+			return true
+		}
+		if id, ok := ast.Unparen(c.Fun).(*ast.Ident); !ok || id.Name != "len" {
+			return true
+		}
+		if sel, ok := ast.Unparen(c.Args[0]).(*ast.SelectorExpr); ok && sel.Sel.Name == "Payload" && namedTypeName(info.TypeOf(sel.X)) == "ConnRequest" {
+			found = true
+		}
+		return true
+	})
+	return found
 }
